@@ -2071,16 +2071,21 @@ class NetWorld(World):
             # a segment that is almost, but not exactly, vertical (what a vertical road becomes after a
             # change of coordinates): the projection of the library loses digits there (known finding)
             nearly_vertical = any(0 < abs(a[0] - b[0]) < 1e-6 * abs(a[1] - b[1]) for a, b in zip(pts, pts[1:]))
+            ratios = [abs(a[0] - b[0]) / abs(a[1] - b[1]) for a, b in zip(pts, pts[1:])
+                      if 0 < abs(a[0] - b[0]) < 1e-6 * abs(a[1] - b[1])]
+            self._dbg_ratio = min(ratios) if ratios else None
             if best > tol:
                 self.fail("C10", "map.on_edge", where + ": matched point of observation %d is not on edge %d (%s)"
                           % (k, e, m["edges"][e]["id"]), "distance to the edge geometry <= %g" % tol, best,
-                          point=list(q), nearly_vertical=nearly_vertical, below_1cm=best < 0.01)
+                          point=list(q), nearly_vertical=nearly_vertical, below_1cm=best < 0.01, dx_over_dy=self._dbg_ratio,
+                          ulp_vertical=self._dbg_ratio is not None and self._dbg_ratio < 1e-9)
                 return None
             do = math.dist(q, (x, y))
             if do > radius + 1e-9:
                 self.fail("C10", "map.radius", where + ": matched point of observation %d is farther than the search "
-                          "radius" % k, radius, do, nearly_vertical=nearly_vertical, below_1cm=(do - radius) < 0.01)
-                if nearly_vertical and (do - radius) < 0.01 and not self.violations:
+                          "radius" % k, radius, do, nearly_vertical=nearly_vertical, below_1cm=(do - radius) < 0.01, dx_over_dy=self._dbg_ratio,
+                          ulp_vertical=self._dbg_ratio is not None and self._dbg_ratio < 1e-9)
+                if nearly_vertical and ((do - radius) < 0.01 or (self._dbg_ratio or 1) < 1e-9) and not self.violations:
                     continue            # recorded as a known finding: the rest of the track is still judged
                 return None
             if abs(ds + dt - L) > 1e-6 * max(1.0, L):
